@@ -60,20 +60,8 @@ def expected_throwing_dtors():
 
 
 def load_known(vlib, prop):
-    """known findings of this property: /verif/known_findings.jsonl (maintained by the coordinator); entries of
-    corpus/<prop>.known.jsonl are used for ids that the main file does not list yet"""
-    kn = [k for k in vlib.load_known(prop) if k.get("status") == "known"]
-    have = set(k.get("id") for k in kn)
-    fixed = set(k.get("id") for k in vlib.load_known(prop) if k.get("status") == "fixed")
-    p = os.path.join(VERIF, "corpus", prop + ".known.jsonl")
-    if os.path.exists(p):
-        for l in open(p):
-            l = l.strip()
-            if l and not l.startswith("#"):
-                d = json.loads(l)
-                if d.get("id") not in have and d.get("id") not in fixed and d.get("status") == "known":
-                    kn.append(d)
-    return kn
+    """known findings of this property: /verif/known_findings.jsonl only (the interface's single source)"""
+    return [k for k in vlib.load_known(prop) if k.get("status") == "known"]
 
 
 def load_corpus(prop):
